@@ -284,7 +284,7 @@ def cases(c):
         for kw in grid:
             for N in ([2, 3, 8, 33, 64] if c.tier == 'quick' else [1, 2, 3, 4, 7, 8, 16, 33, 64, 101, 256]):
                 out.append({'name': name, 'N': N, 'kw': kw})
-    for i in range(30 if c.tier == 'quick' else 2400):
+    for i in range(30 if c.tier == 'quick' else 9600):
         name = gen.pick(rng, names)
         hi = 16384 if name not in ('taylor', 'chebwin') else 2048
         out.append({'name': name, 'N': int(rng.integers(513, hi + 1)), 'kw': {}, 'i': i})
